@@ -331,6 +331,10 @@ async fn interp(case: &CbcCase) -> Verdict {
     let permitted = cfg.permitted;
     let mut cur = CLOSED;
     let mut opened_at = 0u64;
+    // instant of the most recent observed transition into Open: the shield lasts for
+    // wait_duration_in_open from then on, whatever the breaker claims in between (the generated
+    // cases contain no force_closed / reset)
+    let mut last_open: Option<u64> = None;
     let mut period_serials: HashSet<u64> = HashSet::new();
     let mut entries = 0usize;
     let mut abandoned = 0usize;
@@ -360,9 +364,17 @@ async fn interp(case: &CbcCase) -> Verdict {
                         cfg.wait_ms
                     ));
                 }
+                if *a == OPEN && *b == CLOSED && 2 * (t - opened_at) < wait2 {
+                    v.c03.push(format!(
+                        "t={t}: breaker went from Open straight to Closed {} ms after opening, before wait_duration_in_open ({}.5 ms) elapsed and without a manual override",
+                        t - opened_at,
+                        cfg.wait_ms
+                    ));
+                }
                 cur = *b;
                 if *b == OPEN {
                     opened_at = *t;
+                    last_open = Some(*t);
                 }
                 period_serials.clear();
                 entries = 0;
@@ -393,6 +405,15 @@ async fn interp(case: &CbcCase) -> Verdict {
                         "t={t}: request {} reached the inner service while the breaker was observed open (opened at t={opened_at}, wait {}.5 ms)",
                         req.id, cfg.wait_ms
                     ));
+                } else if let Some(op) = last_open {
+                    if 2 * (t - op) < wait2 {
+                        v.c03.push(format!(
+                            "t={t}: request {} reached the inner service only {} ms after the breaker was observed open (t={op}); wait_duration_in_open is {}.5 ms",
+                            req.id,
+                            t - op,
+                            cfg.wait_ms
+                        ));
+                    }
                 }
                 if cur == HALF {
                     entries += 1;
